@@ -110,13 +110,14 @@ Definition no_tree (cf : finder) (w : hash) : Prop :=
 
 Lemma walk_ok : forall f cur path new cf,
   trees_ok cf -> (forall n t, steps p n cur t -> (n < f)%nat) ->
-  exists ws new',
-    linked cur ws /\ (forall w, In w ws -> no_tree cf w) /\ (length new' <= length new)%nat /\
-    ((dget (last ws cur) p = None /\ (forall x, In x new' <-> In x new /\ ~ In x ws) /\
-       walk f cur path new cf = Ret (path ++ ws, new', cf)) \/
-     (exists k pre s, dget (last ws cur) p = Some k /\ dget k (tfb cf) = Some pre /\ pre <> [] /\
-        dget (last pre 0) (dbt cf) = Some s /\ (forall x, In x new' <-> In x new /\ ~ In x (ws ++ [k])) /\
-        walk f cur path new cf = Ret (path ++ ws ++ pre, new',
+  exists ws,
+    linked cur ws /\ (forall w, In w ws -> no_tree cf w /\ ~ In w new) /\
+    ((dget (last ws cur) p = None /\ walk f cur path new cf = Ret (path ++ ws, new, cf)) \/
+     (exists t, dget (last ws cur) p = Some t /\ In t new /\
+        walk f cur path new cf = Ret (path ++ ws ++ [t], new, cf)) \/
+     (exists k pre s, dget (last ws cur) p = Some k /\ ~ In k new /\ dget k (tfb cf) = Some pre /\ pre <> [] /\
+        dget (last pre 0) (dbt cf) = Some s /\
+        walk f cur path new cf = Ret (path ++ ws ++ pre, new,
            mkFinder p (dset (last pre 0) (sdiscard k s) (dbt cf)) (ddel k (tfb cf))))).
 Proof.
   induction f as [|f IH]; intros cur path new cf TO Hfuel.
@@ -125,50 +126,43 @@ Proof.
     destruct (dget cur p) as [nxt|] eqn:Ec.
     + assert (Hfuel' : forall n t, steps p n nxt t -> (n < f)%nat).
       { intros n t Hs. assert (steps p (S n) cur t) by (econstructor; eauto). apply Hfuel in H. lia. }
+      destruct (mem nxt new) eqn:Em.
+      { apply mem_In in Em. exists []. split; [exact I|]. split; [intros w []|].
+        right. left. exists nxt. cbn [last app]. auto. }
+      apply mem_false in Em.
+      assert (REC : no_tree cf nxt ->
+        exists ws, linked cur ws /\ (forall w, In w ws -> no_tree cf w /\ ~ In w new) /\
+        ((dget (last ws cur) p = None /\ walk f nxt (path ++ [nxt]) new cf = Ret (path ++ ws, new, cf)) \/
+         (exists t, dget (last ws cur) p = Some t /\ In t new /\
+            walk f nxt (path ++ [nxt]) new cf = Ret (path ++ ws ++ [t], new, cf)) \/
+         (exists k pre s, dget (last ws cur) p = Some k /\ ~ In k new /\ dget k (tfb cf) = Some pre /\ pre <> [] /\
+            dget (last pre 0) (dbt cf) = Some s /\
+            walk f nxt (path ++ [nxt]) new cf = Ret (path ++ ws ++ pre, new,
+               mkFinder p (dset (last pre 0) (sdiscard k s) (dbt cf)) (ddel k (tfb cf)))))).
+      { intros Hnt.
+        destruct (IH nxt (path ++ [nxt]) new cf (conj Epl TF) Hfuel') as (ws & Hl & Hw & Hres).
+        exists (nxt :: ws). split; [cbn; auto|]. split.
+        { intros w [<-|Hin]; [auto|auto]. }
+        rewrite last_cons_shift.
+        destruct Hres as [(En & Hr)|[(t & Et & Ht & Hr)|(k & pre & s & Ek & Hk & Etk & Hne & Es & Hr)]].
+        - left. split; [exact En|]. rewrite Hr. now rewrite <- app_assoc.
+        - right. left. exists t. split; [exact Et|]. split; [exact Ht|]. rewrite Hr. now rewrite <- app_assoc.
+        - right. right. exists k, pre, s. repeat (split; [assumption|]). rewrite Hr. now rewrite <- app_assoc. }
       destruct (dget nxt (tfb cf)) as [[|b0 r]|] eqn:Et.
-      * (* empty list stored: falsy, continue *)
-        destruct (IH nxt (path ++ [nxt]) (sdiscard nxt new) cf (conj Epl TF) Hfuel')
-          as (ws & new' & Hl & Hnt & Hlen & Hres).
-        exists (nxt :: ws), new'. split; [cbn; auto|]. split.
-        { intros w [<-|Hw]; [unfold no_tree; now rewrite Et|auto]. }
-        split; [pose proof (sdiscard_length nxt new); lia|].
-        rewrite last_cons_shift.
-        destruct Hres as [(En & Hm & Hw)|(k & pre & s & Ek & Etk & Hne & Es & Hm & Hw)].
-        -- left. split; [exact En|]. split.
-           ++ intros x. rewrite Hm, sdiscard_In. cbn. intuition congruence.
-           ++ rewrite Hw. now rewrite <- app_assoc.
-        -- right. exists k, pre, s. repeat (split; [assumption|]). split.
-           ++ intros x. rewrite Hm, sdiscard_In. cbn. intuition congruence.
-           ++ rewrite Hw. now rewrite <- app_assoc.
-      * (* absorb the tree that starts at nxt *)
-        destruct (TF _ _ Et) as ((r' & Er) & (s & Es & Hin)).
+      * apply REC. unfold no_tree. now rewrite Et.
+      * destruct (TF _ _ Et) as ((r' & Er) & (s & Es & Hin)).
         inversion Er; subst b0 r'. clear Er.
-        exists [], (sdiscard nxt new). split; [exact I|]. split; [intros w []|].
-        split; [apply sdiscard_length|].
-        right. exists nxt, (nxt :: r), s.
+        exists []. split; [exact I|]. split; [intros w []|].
+        right. right. exists nxt, (nxt :: r), s.
         assert (El : last (nxt :: r) nxt = last (nxt :: r) 0) by (apply last_default; discriminate).
-        split; [exact Ec|]. split; [exact Et|]. split; [discriminate|].
-        split; [exact Es|]. split.
-        { intros x. rewrite sdiscard_In. cbn. intuition congruence. }
+        split; [exact Ec|]. split; [exact Em|]. split; [exact Et|]. split; [discriminate|].
+        split; [exact Es|].
         rewrite El, Es. apply mem_In in Hin. rewrite Hin. reflexivity.
-      * destruct (IH nxt (path ++ [nxt]) (sdiscard nxt new) cf (conj Epl TF) Hfuel')
-          as (ws & new' & Hl & Hnt & Hlen & Hres).
-        exists (nxt :: ws), new'. split; [cbn; auto|]. split.
-        { intros w [<-|Hw]; [unfold no_tree; now rewrite Et|auto]. }
-        split; [pose proof (sdiscard_length nxt new); lia|].
-        rewrite last_cons_shift.
-        destruct Hres as [(En & Hm & Hw)|(k & pre & s & Ek & Etk & Hne & Es & Hm & Hw)].
-        -- left. split; [exact En|]. split.
-           ++ intros x. rewrite Hm, sdiscard_In. cbn. intuition congruence.
-           ++ rewrite Hw. now rewrite <- app_assoc.
-        -- right. exists k, pre, s. repeat (split; [assumption|]). split.
-           ++ intros x. rewrite Hm, sdiscard_In. cbn. intuition congruence.
-           ++ rewrite Hw. now rewrite <- app_assoc.
-    + exists [], new. split; [exact I|]. split; [intros w []|]. split; [lia|].
-      left. cbn [last]. split; [exact Ec|]. split; [intros x; cbn; tauto|now rewrite app_nil_r].
+      * apply REC. unfold no_tree. now rewrite Et.
+    + exists []. split; [exact I|]. split; [intros w []|].
+      left. cbn [last]. split; [exact Ec|now rewrite app_nil_r].
 Qed.
 
-(* ---- facts about [linked] *)
 Lemma linked_anc : forall ws cur, linked cur ws -> forall w, In w ws -> anc p cur w.
 Proof.
   induction ws as [|w0 r IH]; intros cur Hl w Hw; [destruct Hw|].
@@ -209,22 +203,21 @@ Proof.
     cbn [app]. econstructor; [apply HP; now left|exact E|]. apply IH; auto. intros x Hx. apply HP. now right.
 Qed.
 
-(* ---- the invariant during a batch *)
-Variable old : hash -> Prop.
-Variable N0 : list hash.
-Hypothesis old_known : forall c, old c -> known c.
-Hypothesis N0_new : forall x, In x N0 -> ~ old x /\ known x.
-Hypothesis safe : forall t a c, In t N0 -> In a N0 -> a <> t -> old c -> dget c p = Some t -> ~ anc p a t.
+Lemma linked_snoc : forall ws cur t, linked cur ws -> dget (last ws cur) p = Some t -> linked cur (ws ++ [t]).
+Proof.
+  induction ws as [|w r IH]; intros cur t Hl Et.
+  - cbn in *. auto.
+  - destruct Hl as [E Hl]. rewrite last_cons_shift in Et. cbn [app linked]. split; [exact E|]. now apply IH.
+Qed.
 
-
+(* ---- the invariant during a batch: [new] = hashes registered but not yet melded *)
 Record inv (new : list hash) (cf : finder) : Prop := {
   i_pl : pl cf = p;
-  i_sub : forall x, In x new -> In x N0;
+  i_newk : forall x, In x new -> known x;
   i_tree : forall b l, dget b (tfb cf) = Some l -> proc new b /\ ppath p (proc new) b l;
   i_dbt : dbt_ok cf;
   i_nodup : nodup_ok cf;
   i_cover : forall x, proc new x -> exists b l, dget b (tfb cf) = Some l /\ In x l;
-  i_J : forall c y, proc new c -> dget c p = Some y -> In y new -> old c;
   i_keys : NoDup (map fst (tfb cf))
 }.
 
@@ -244,7 +237,6 @@ Record mid (a : hash) (new new' : list hash) (path' : list hash) (cf' : finder) 
   m_nodup : nodup_ok cf';
   m_cover : forall x, pm new' a x -> (exists b l, dget b (tfb cf') = Some l /\ In x l) \/ In x path';
   m_path : ppath p (proc new') a path';
-  m_J : forall c y, proc new' c -> dget c p = Some y -> In y new' -> old c;
   m_len : (length new' < length new)%nat;
   m_keys : NoDup (map fst (tfb cf'))
 }.
@@ -271,66 +263,64 @@ Proof.
 Qed.
 
 Lemma walk_mid new cf a : inv new cf -> In a new ->
-  exists path' new' cf',
-    walk (S (length (pl cf))) a [a] (sdiscard a new) cf = Ret (path', new', cf') /\ mid a new new' path' cf'.
+  exists path' cf',
+    walk (S (length (pl cf))) a [a] (sdiscard a new) cf = Ret (path', sdiscard a new, cf') /\
+    mid a new (sdiscard a new) path' cf'.
 Proof.
-  intros I Ha.
-  assert (HaN0 : In a N0) by (apply (i_sub _ _ I); exact Ha).
-  assert (Hak : known a) by (apply N0_new; exact HaN0).
-  assert (Hnpa : ~ proc new a) by (intros [_ H]; contradiction).
-  destruct (walk_ok (S (length (pl cf))) a [a] (sdiscard a new) cf (inv_trees_ok _ _ I))
-    as (ws & new' & Hl & Hnt & Hlen & Hres).
+  intros I Ha. set (new' := sdiscard a new).
+  assert (Hak : known a) by (apply (i_newk _ _ I); exact Ha).
+  assert (Hsub : forall x, In x new' -> In x new /\ x <> a) by (intros x Hx; now apply sdiscard_In in Hx).
+  assert (Hmono : forall x, proc new x -> pm new' a x).
+  { intros x [K Hx]. split; [split; [exact K|]|intros ->; contradiction]. intros H. apply Hsub in H. tauto. }
+  assert (Hback : forall x, pm new' a x -> proc new x).
+  { intros x [[K Hx] Hxa]. split; [exact K|]. intros H. apply Hx. apply sdiscard_In. auto. }
+  assert (Hlen : (length new' < length new)%nat) by (apply sdiscard_length_lt; exact Ha).
+  assert (Htrees : forall b l, dget b (tfb cf) = Some l -> pm new' a b /\ ppath p (pm new' a) b l).
+  { intros b l E. destruct (i_tree _ _ I _ _ E) as [Pb Hp]. split; [now apply Hmono|].
+    eapply ppath_mono; [exact Hp|exact Hmono|]. intros H. apply Hback in H.
+    exact (ppath_last_notP _ _ _ _ Hp H). }
+  destruct (walk_ok (S (length (pl cf))) a [a] new' cf (inv_trees_ok _ _ I)) as (ws & Hl & Hws & Hres).
   { intros n t Hs. rewrite (i_pl _ _ I). apply steps_bound with (rk := rk) in Hs; auto. lia. }
   assert (Hanc : forall w, In w ws -> anc p a w) by (apply linked_anc; exact Hl).
-  assert (Hmono0 : forall x, proc new x -> x <> a) by (intros x Hx ->; contradiction).
-  (* a tree's top that is known cannot lie on the walk: that is where [safe] is used *)
-  assert (Htops : forall b l, dget b (tfb cf) = Some l -> In (last l 0) ws -> known (last l 0) -> False).
-  { intros b l E Hin Hk. destruct (i_tree _ _ I _ _ E) as [Pb Hp].
-    pose proof (ppath_last_notP _ _ _ _ Hp) as Hn.
-    pose proof (notproc_known_In _ _ Hn Hk) as Hnew.
-    destruct (ppath_before_last _ _ _ _ Hp Pb) as (c & Hc & Pc & Ec).
-    pose proof (i_J _ _ I _ _ Pc Ec Hnew) as Hold.
-    pose proof (Hanc _ Hin) as Ha'.
-    apply (safe (last l 0) a c); auto.
-    - apply (i_sub _ _ I); exact Hnew.
-    - eapply anc_neq; eauto. }
-  destruct Hres as [(En & Hm & Hw)|(k & pre & s & Ek & Etk & Hne & Es & Hm & Hw)].
+  assert (Hwsn : forall w, In w ws -> ~ In w new').
+  { intros w Hw. apply Hws. exact Hw. }
+  destruct Hres as [(En & Hw)|[(t & Et & Ht & Hw)|(k & pre & s & Ek & Hkn & Etk & Hne & Es & Hw)]].
   - (* the walk ended at an unknown hash *)
-    assert (Hsub : forall x, In x new' -> In x new /\ x <> a).
-    { intros x Hx. apply Hm in Hx. destruct Hx as [Hx _]. now apply sdiscard_In in Hx. }
-    assert (Hmono : forall x, proc new x -> pm new' a x).
-    { intros x [K Hx]. split; [split; [exact K|]|apply Hmono0; now split]. intros H. apply Hsub in H. tauto. }
-    assert (Hgone : forall x, In x new -> ~ In x new' -> x <> a -> In x ws).
-    { intros x Hx Hn Hxa. destruct (in_dec N.eq_dec x ws) as [H|H]; [exact H|]. exfalso. apply Hn.
-      apply Hm. split; [apply sdiscard_In; now split|exact H]. }
-    exists ([a] ++ ws), new', cf. split; [exact Hw|]. constructor.
+    exists ([a] ++ ws), cf. split; [exact Hw|]. constructor.
     + apply I.
     + exact Hsub.
-    + intros b l E. destruct (i_tree _ _ I _ _ E) as [Pb Hp]. split; [now apply Hmono|].
-      eapply ppath_mono; [exact Hp|exact Hmono|]. intros [[Kt Hnt'] Hta].
-      pose proof (ppath_last_notP _ _ _ _ Hp) as Hn.
-      pose proof (notproc_known_In _ _ Hn Kt) as Hnew.
-      eapply Htops; eauto.
+    + exact Htrees.
     + apply I.
     + apply I.
-    + intros x [[K Hx] Hxa]. destruct (proc_dec new x) as [Px|Px].
-      * left. now apply (i_cover _ _ I).
-      * right. cbn. right. apply Hgone; auto. now apply notproc_known_In.
+    + intros x Hx. left. apply (i_cover _ _ I). now apply Hback.
     + cbn [app]. apply linked_ppath_A; auto.
       * intros x Hx. split; [eapply linked_known; eauto|].
         intros Hx'. apply In_removelast in Hx. destruct Hx as [<-|Hx].
         -- apply Hsub in Hx'. tauto.
-        -- apply Hm in Hx'. tauto.
+        -- exact (Hwsn _ Hx Hx').
       * intros [K _]. apply K. exact En.
-    + intros c y Pc Ey Hy. destruct (proc_dec new c) as [Px|Px].
-      * eapply (i_J _ _ I); eauto. apply Hsub in Hy. tauto.
-      * destruct Pc as [Kc Hc]. pose proof (notproc_known_In _ _ Px Kc) as Hcn.
-        assert (Hin : In c (a :: ws)).
-        { destruct (N.eq_dec c a) as [->|Hca]; [now left|right; apply Hgone; auto]. }
-        destruct (linked_next _ _ Hl _ _ Hin Ey) as [H|H].
-        -- apply Hm in Hy. tauto.
-        -- subst c. congruence.
-    + pose proof (sdiscard_length_lt a new Ha). lia.
+    + exact Hlen.
+    + apply I.
+  - (* the walk reached a hash that is still to be melded *)
+    pose proof (linked_anc_k _ _ _ Hl Et) as Hwk.
+    assert (Hta : t <> a).
+    { intros E. subst t. eapply anc_neq; [exact Hrk|apply Hwk; now left|reflexivity]. }
+    exists ([a] ++ ws ++ [t]), cf. split; [exact Hw|]. constructor.
+    + apply I.
+    + exact Hsub.
+    + exact Htrees.
+    + apply I.
+    + apply I.
+    + intros x Hx. left. apply (i_cover _ _ I). now apply Hback.
+    + cbn [app]. apply linked_ppath_A.
+      * now apply linked_snoc.
+      * intros x Hx. change (a :: ws ++ [t]) with ((a :: ws) ++ [t]) in Hx. rewrite removelast_last in Hx.
+        split; [now apply Hwk|]. intros Hx'. destruct Hx as [<-|Hx].
+        -- apply Hsub in Hx'. tauto.
+        -- exact (Hwsn _ Hx Hx').
+      * rewrite last_app_ne by discriminate. cbn [last]. intros [_ Hn]. apply Hn.
+        apply sdiscard_In. split; [apply sdiscard_In in Ht; tauto|exact Hta].
+    + exact Hlen.
     + apply I.
   - (* the walk met the bottom k of an existing tree *)
     destruct (i_tree _ _ I _ _ Etk) as [Pk Hpk].
@@ -342,33 +332,16 @@ Proof.
       exfalso. apply Hntop. fold top in E. rewrite <- E. exact Pk. }
     pose proof (linked_anc_k _ _ _ Hl Ek) as Hwk.
     assert (Hatop : anc p a top) by (eapply anc_trans; [apply Hwk; now left|exact Hktop]).
-    assert (Hsub : forall x, In x new' -> In x new /\ x <> a).
-    { intros x Hx. apply Hm in Hx. destruct Hx as [Hx _]. now apply sdiscard_In in Hx. }
-    assert (Hmono : forall x, proc new x -> pm new' a x).
-    { intros x [K Hx]. split; [split; [exact K|]|apply Hmono0; now split]. intros H. apply Hsub in H. tauto. }
-    assert (Hknew : ~ In k new) by apply Pk.
-    assert (Hgone : forall x, In x new -> ~ In x new' -> x <> a -> In x ws).
-    { intros x Hx Hn Hxa. destruct (in_dec N.eq_dec x ws) as [H|H]; [exact H|]. exfalso. apply Hn.
-      apply Hm. split; [apply sdiscard_In; now split|]. rewrite in_app_iff. cbn. intros [H1|[H1|[]]]; [tauto|].
-      subst x. contradiction. }
     assert (Hntop' : ~ proc new' top).
-    { intros [K Hn]. pose proof (notproc_known_In _ _ Hntop K) as Hnew.
-      assert (Hta : top <> a) by (intros E; symmetry in E; revert E; eapply anc_neq; eauto).
-      pose proof (Hgone _ Hnew Hn Hta) as Hin.
-      assert (anc p top top) by (eapply anc_trans; [apply Hwk; now right|exact Hktop]).
-      eapply anc_neq; eauto. }
-    exists ([a] ++ ws ++ pre), new', (mkFinder p (dset top (sdiscard k s) (dbt cf)) (ddel k (tfb cf))).
+    { intros [K Hn]. apply Hntop. split; [exact K|]. intros Hin. apply Hn. apply sdiscard_In. split; [exact Hin|].
+      intros E. symmetry in E. revert E. eapply anc_neq; eauto. }
+    exists ([a] ++ ws ++ pre), (mkFinder p (dset top (sdiscard k s) (dbt cf)) (ddel k (tfb cf))).
     split; [exact Hw|]. constructor.
     + reflexivity.
     + exact Hsub.
     + cbn [tfb]. intros b l E.
       assert (Hbk : b <> k) by (intros ->; rewrite dget_ddel_eq in E; discriminate).
-      rewrite dget_ddel_neq in E by exact Hbk.
-      destruct (i_tree _ _ I _ _ E) as [Pb Hp]. split; [now apply Hmono|].
-      eapply ppath_mono; [exact Hp|exact Hmono|]. intros [[Kt Hnt'] Hta].
-      pose proof (ppath_last_notP _ _ _ _ Hp) as Hn.
-      pose proof (notproc_known_In _ _ Hn Kt) as Hnew.
-      eapply Htops; eauto.
+      rewrite dget_ddel_neq in E by exact Hbk. now apply Htrees.
     + intros t b. cbn [dbt tfb]. rewrite inset_dset. split.
       * intros [[-> Hb]|[Hn Hb]].
         -- apply sdiscard_In in Hb. destruct Hb as [Hb Hbk].
@@ -387,31 +360,21 @@ Proof.
     + intros t s'. cbn [dbt]. destruct (N.eq_dec t top) as [->|Hn].
       * rewrite dget_dset_eq. intros E. inversion E; subst s'. apply sdiscard_NoDup. eapply (i_nodup _ _ I); eauto.
       * rewrite dget_dset_neq by exact Hn. apply (i_nodup _ _ I).
-    + cbn [tfb]. intros x [[K Hx] Hxa]. destruct (proc_dec new x) as [Px|Px].
-      * destruct (i_cover _ _ I _ Px) as (b & l & E & Hin).
-        destruct (N.eq_dec b k) as [->|Hbk].
-        -- right. rewrite Etk in E. inversion E; subst l. rewrite !in_app_iff. auto.
-        -- left. exists b, l. rewrite dget_ddel_neq by exact Hbk. auto.
-      * right. rewrite !in_app_iff. right. left. apply Hgone; auto. now apply notproc_known_In.
+    + cbn [tfb]. intros x Hx. apply Hback in Hx.
+      destruct (i_cover _ _ I _ Hx) as (b & l & E & Hin).
+      destruct (N.eq_dec b k) as [->|Hbk].
+      * right. rewrite Etk in E. inversion E; subst l. rewrite !in_app_iff. auto.
+      * left. exists b, l. rewrite dget_ddel_neq by exact Hbk. auto.
     + cbn [app]. eapply linked_ppath_B; eauto.
       * intros x Hx. split; [now apply Hwk|]. intros Hx'. destruct Hx as [<-|Hx].
         -- apply Hsub in Hx'. tauto.
-        -- apply Hm in Hx'. rewrite in_app_iff in Hx'. tauto.
+        -- exact (Hwsn _ Hx Hx').
       * eapply ppath_mono; [exact Hpk| |exact Hntop'].
         intros x Px. apply Hmono in Px. apply Px.
-    + intros c y Pc Ey Hy. destruct (proc_dec new c) as [Px|Px].
-      * eapply (i_J _ _ I); eauto. apply Hsub in Hy. tauto.
-      * destruct Pc as [Kc Hc]. pose proof (notproc_known_In _ _ Px Kc) as Hcn.
-        assert (Hin : In c (a :: ws)).
-        { destruct (N.eq_dec c a) as [->|Hca]; [now left|right; apply Hgone; auto]. }
-        destruct (linked_next _ _ Hl _ _ Hin Ey) as [H|H].
-        -- apply Hm in Hy. rewrite in_app_iff in Hy. tauto.
-        -- subst c. rewrite Ek in Ey. inversion Ey; subst y. apply Hm in Hy. rewrite in_app_iff in Hy. cbn in Hy. tauto.
-    + pose proof (sdiscard_length_lt a new Ha). lia.
+    + exact Hlen.
     + cbn [tfb]. apply ddel_keys. apply I.
 Qed.
 
-(* ---- extend_all *)
 Lemma extend_all_spec path : forall desc t,
   NoDup desc -> ~ In (hd 0 path) desc -> (forall d, In d desc -> dget d t <> None) ->
   exists t', extend_all path desc t = Ret t' /\
@@ -508,7 +471,7 @@ Lemma meld_one_unfold prio new cf :
 Proof. reflexivity. Qed.
 
 Lemma mid_finish a new new' path' cf' :
-  mid a new new' path' cf' -> (forall x, In x new -> In x N0) -> known a ->
+  mid a new new' path' cf' -> (forall x, In x new -> known x) -> known a ->
   exists cf'', finish path' new' cf' = Ret (new', cf'') /\ inv new' cf''.
 Proof.
   intros M Hsub Hak.
@@ -525,7 +488,7 @@ Proof.
   assert (Hnoa : dget a (tfb cf') = None).
   { destruct (dget a (tfb cf')) eqn:E; [|reflexivity].
     destruct (m_tree _ _ _ _ _ M _ _ E) as [[_ H] _]. congruence. }
-  assert (Hsub' : forall x, In x new' -> In x N0).
+  assert (Hsub' : forall x, In x new' -> known x).
   { intros x H. apply Hsub. apply (m_sub _ _ _ _ _ M) in H. tauto. }
   destruct (setdefault_top top (dbt cf')) as (ts & Ets & Hts_nd & Hts).
   { intros t s; cbn; apply (m_nodup _ _ _ _ _ M). }
@@ -565,7 +528,6 @@ Proof.
       + destruct (m_cover _ _ _ _ _ M x (conj Px Hxa)) as [(b & l & E & Hin)|Hin].
         * exists b, l. split; [|exact Hin]. rewrite dget_dset_neq; [exact E|]. intros ->. congruence.
         * exists a, path'. rewrite dget_dset_eq. auto.
-    - apply M.
     - apply dset_keys. apply M. }
   rewrite Eda.
   destruct (dget a (dbt cf')) as [[|d0 dr]|] eqn:Edesc.
@@ -651,7 +613,6 @@ Proof.
            ++ exists b, l. split; [|exact Hin]. rewrite Hout2; [|exact Hd|intros ->; congruence].
               rewrite dget_dset_neq; [exact E|intros ->; congruence].
         -- exists d0, (l0 ++ rest). split; [exact E1|]. now apply Hpath_in.
-    + apply M.
     + apply Hk2. apply dset_keys. apply M.
   - rewrite Ets. eexists. split; [reflexivity|]. apply NOEXT.
     intros b l E El. assert (Hi : inset (dbt cf') a b) by (apply (m_dbt _ _ _ _ _ M); eauto).
@@ -662,10 +623,10 @@ Lemma meld_one_inv prio new cf : inv new cf -> new <> [] ->
   exists new' cf', meld_one prio new cf = Ret (new', cf') /\ inv new' cf' /\ (length new' < length new)%nat.
 Proof.
   intros I Hne. pose proof (pick_In prio new Hne) as Ha. set (a := pick prio new) in *.
-  destruct (walk_mid new cf a I Ha) as (path' & new' & cf' & Hw & M).
-  destruct (mid_finish a new new' path' cf' M (i_sub _ _ I)) as (cf'' & Hf & I').
-  { apply N0_new. apply (i_sub _ _ I). exact Ha. }
-  exists new', cf''. split; [|split; [exact I'|apply M]].
+  destruct (walk_mid new cf a I Ha) as (path' & cf' & Hw & M).
+  destruct (mid_finish a new (sdiscard a new) path' cf' M (i_newk _ _ I)) as (cf'' & Hf & I').
+  { apply (i_newk _ _ I). exact Ha. }
+  exists (sdiscard a new), cf''. split; [|split; [exact I'|apply M]].
   rewrite meld_one_unfold. fold a. rewrite Hw. exact Hf.
 Qed.
 
@@ -718,25 +679,13 @@ Lemma ppath_change_p p p' (P : hash -> Prop) b l :
   ppath p P b l -> (forall x q, P x -> dget x p = Some q -> dget x p' = Some q) -> ppath p' P b l.
 Proof. induction 1; intros H'; [now constructor|]. econstructor; eauto. Qed.
 
-Lemma reaches_complete p : forall fuel n a t, steps p (S n) a t -> (S n <= fuel)%nat ->
-  reaches fuel p a t = true.
-Proof.
-  induction fuel as [|f IH]; intros n a t Hs Hle; [lia|].
-  inversion Hs as [|n' a' q t' Eq Hs']; subst. cbn. rewrite Eq. destruct n as [|n'].
-  - inversion Hs'; subst. now rewrite N.eqb_refl.
-  - rewrite (IH n' q t Hs'); [apply orb_true_r|lia].
-Qed.
 
-(* no walk of the batch can run through a new header that earlier orphans are waiting for *)
-Definition safe_batch (p0 p' : dict hash) (N0 : list hash) : Prop :=
-  forall t a c, In t N0 -> In a N0 -> a <> t -> kn p0 c -> dget c p' = Some t -> ~ anc p' a t.
 
-Theorem load_nodes_safe rk cf nodes p' N0 :
+Theorem load_nodes_ok rk cf nodes p' N0 :
   finder_ok cf -> register nodes (pl cf) [] = (p', N0) -> ranked rk p' ->
-  safe_batch (pl cf) p' N0 ->
   forall prio, exists cf', load_nodes prio nodes cf = Ret cf' /\ finder_ok cf' /\ pl cf' = p'.
 Proof.
-  intros (Ft & Fd & Fn & Fc & Fk) Hreg Hrk Hsafe prio.
+  intros (Ft & Fd & Fn & Fc & Fk) Hreg Hrk prio.
   destruct (register_spec _ _ _ _ _ Hreg) as [R1 R2].
   set (p0 := pl cf) in *.
   assert (R2' : forall x, In x N0 <-> dget x p0 = None /\ dget x p' <> None).
@@ -748,10 +697,10 @@ Proof.
     - intros H. split; [now apply Kold|]. intros Hin. apply R2' in Hin. unfold kn in H. tauto.
     - intros [K Hn]. unfold kn, known in *. destruct (dget x p0) eqn:E; [discriminate|].
       exfalso. apply Hn. apply R2'. auto. }
-  assert (I0 : inv p' (kn p0) N0 N0 (mkFinder p' (dbt cf) (tfb cf))).
+  assert (I0 : inv p' N0 (mkFinder p' (dbt cf) (tfb cf))).
   { constructor; cbn [pl dbt tfb].
     - reflexivity.
-    - auto.
+    - intros x Hx. apply R2' in Hx. unfold known. tauto.
     - intros b l E. destruct (Ft _ _ E) as [Kb Hp]. split; [now apply Kproc|].
       eapply ppath_mono.
       + eapply ppath_change_p; [exact Hp|]. intros x q _ Hx. now apply R1.
@@ -760,54 +709,21 @@ Proof.
     - exact Fd.
     - exact Fn.
     - intros x Hx. apply Fc. now apply Kproc.
-    - intros c y Hc _ _. now apply Kproc.
     - exact Fk. }
   unfold load_nodes. fold p0. rewrite Hreg.
-  destruct (meld_inv p' rk Hrk (kn p0) N0) with (prio := prio) (fuel := length N0) (new := N0)
-    (cf := mkFinder p' (dbt cf) (tfb cf)) as (cf' & Hm & I').
-  - intros x Hx. apply R2' in Hx. split; [unfold kn; tauto|unfold known; tauto].
-  - (* safe *)
-    exact Hsafe.
-  - exact I0.
-  - lia.
-  - exists cf'. split; [exact Hm|]. split; [|apply I'].
-    pose proof (i_pl _ _ _ _ _ I') as Epl.
-    assert (Kp : forall x, proc p' [] x <-> kn (pl cf') x).
-    { intros x. rewrite Epl. unfold proc, known, kn. cbn. tauto. }
-    split; [|split; [apply I'|split; [apply I'|split; [|apply I']]]].
-    + intros b l E. destruct (i_tree _ _ _ _ _ I' _ _ E) as [Pb Hp]. split; [now apply Kp|].
-      rewrite Epl. eapply ppath_mono; [exact Hp| |].
-      * intros x Hx. apply Kp in Hx. now rewrite Epl in Hx.
-      * intros Hx. apply (ppath_last_notP _ _ _ _ Hp). apply Kp. now rewrite Epl.
-    + intros x Hx. apply (i_cover _ _ _ _ _ I'). now apply Kp.
+  destruct (meld_inv p' rk Hrk prio (length N0) N0 (mkFinder p' (dbt cf) (tfb cf)) I0 (le_n _)) as (cf' & Hm & I').
+  exists cf'. split; [exact Hm|]. split; [|apply I'].
+  pose proof (i_pl _ _ _ I') as Epl.
+  assert (Kp : forall x, proc p' [] x <-> kn (pl cf') x).
+  { intros x. rewrite Epl. unfold proc, known, kn. cbn. tauto. }
+  split; [|split; [apply I'|split; [apply I'|split; [|apply I']]]].
+  - intros b l E. destruct (i_tree _ _ _ I' _ _ E) as [Pb Hp]. split; [now apply Kp|].
+    rewrite Epl. eapply ppath_mono; [exact Hp| |].
+    + intros x Hx. apply Kp in Hx. now rewrite Epl in Hx.
+    + intros Hx. apply (ppath_last_notP _ _ _ _ Hp). apply Kp. now rewrite Epl.
+  - intros x Hx. apply (i_cover _ _ _ I'). now apply Kp.
 Qed.
 
-Lemma bad_batch_safe rk p0 nodes p' N0 :
-  register nodes p0 [] = (p', N0) -> ranked rk p' -> bad_batch p0 nodes = false -> safe_batch p0 p' N0.
-Proof.
-  intros Hreg Hrk Hbad t a c Ht Ha Hat Hc Ec Hanc.
-  destruct (register_spec _ _ _ _ _ Hreg) as [R1 R2].
-  unfold bad_batch in Hbad. rewrite Hreg in Hbad.
-  rewrite <- not_true_iff_false in Hbad. apply Hbad. apply existsb_exists. exists t. split; [exact Ht|].
-  apply andb_true_intro. split.
-  - unfold has_child_in. apply existsb_exists. exists (c, t). split; [|apply N.eqb_refl].
-    apply dget_In. unfold kn in Hc. destruct (dget c p0) as [q|] eqn:E; [|congruence].
-    pose proof (R1 _ _ E) as E'. rewrite E' in Ec. injection Ec as <-. exact E.
-  - apply existsb_exists. exists a. split; [exact Ha|]. apply andb_true_intro. split.
-    + apply negb_true_iff. now apply N.eqb_neq.
-    + destruct Hanc as [n Hs]. eapply reaches_complete; [exact Hs|].
-      pose proof (steps_bound _ _ _ _ _ Hrk Hs). lia.
-Qed.
-
-Theorem load_nodes_ok rk cf nodes p' N0 :
-  finder_ok cf -> register nodes (pl cf) [] = (p', N0) -> ranked rk p' ->
-  bad_batch (pl cf) nodes = false ->
-  forall prio, exists cf', load_nodes prio nodes cf = Ret cf' /\ finder_ok cf' /\ pl cf' = p'.
-Proof.
-  intros F Hreg Hrk Hbad. eapply load_nodes_safe; eauto. eapply bad_batch_safe; eauto.
-Qed.
-
-(* registration only depends on the maps as functions *)
 Lemma register_ext : forall nodes p1 p2 n p1' N1 p2' N2,
   (forall x, dget x p1 = dget x p2) -> register nodes p1 n = (p1', N1) -> register nodes p2 n = (p2', N2) ->
   N1 = N2 /\ forall x, dget x p1' = dget x p2'.
@@ -823,15 +739,6 @@ Proof.
 Qed.
 Lemma steps_ext p1 p2 : (forall x, dget x p1 = dget x p2) -> forall n a t, steps p1 n a t -> steps p2 n a t.
 Proof. intros Hext. induction 1; [constructor|]. econstructor; [rewrite <- Hext; eauto|auto]. Qed.
-Lemma safe_batch_ext p0 p' q0 q' N0 :
-  (forall x, dget x p0 = dget x q0) -> (forall x, dget x p' = dget x q') ->
-  safe_batch p0 p' N0 -> safe_batch q0 q' N0.
-Proof.
-  intros E0 E' H t a c Ht Ha Hat Hc Ec [n Hs]. apply (H t a c); auto.
-  - unfold kn in *. now rewrite E0.
-  - now rewrite E'.
-  - exists n. eapply steps_ext; [|exact Hs]. intros x. now rewrite E'.
-Qed.
 Lemma register_dget : forall nodes p0 n0 p' N', register nodes p0 n0 = (p', N') ->
   (forall h q, dget h p' = Some q -> dget h p0 = Some q \/ In (h, q) nodes) /\
   (forall h q, In (h, q) nodes -> dget h p' <> None).
